@@ -112,6 +112,23 @@ def run(spec, res):
             path = os.path.join(d, 'img.' + fmt)
             with open(path, 'wb') as fh:
                 fh.write(refcamx.encode(spec))
+        if fmt == 'uamiv' and not spec.get('sample') and \
+                len(spec.get('names', [])) > 1:
+            # another gridded file with the same species in another order is
+            # opened by both readers first: what one open file knows must not
+            # leak into the next
+            try:
+                ds = dict(spec, names=list(spec['names'])[::-1],
+                          seed=spec['seed'] + 1, nt=1, dhour=1, shour=3,
+                          sdate=2005185)
+                dp = os.path.join(d, 'decoy.uamiv')
+                with open(dp, 'wb') as fh:
+                    fh.write(refcamx.encode(ds))
+                for rd in ('Memmap', 'Read'):
+                    read_all(fmt, dp, ds, rd, res)
+                facets.append('decoy-open')
+            except Exception:
+                res.note('decoy-open-failed')
         sm, dm, vm, cm = read_all(fmt, path, spec, 'Memmap', res)
         res.hook('memmap.return')
         sr, dr, vr, cr = read_all(fmt, path, spec, 'Read', res)
